@@ -168,7 +168,7 @@ def _cross_dir(label):
 IO_ERROR_OPS = ("open-", "write", "twrite", "tofile", "close", "rename", "replace", "unlink", "mkdir", "move", "copy")
 
 
-def place_fault(rng, events, eligible, kinds=("kill", "io_error", "torn")):
+def place_fault(rng, events, eligible, kinds=("kill", "io_error", "torn"), occ=None, tear=None):
     """Pick a label class uniformly among eligible events, then an occurrence in it, then a
     fault kind applicable to that operation.  Returns a fault dict or None."""
     by_class = {}
@@ -178,10 +178,13 @@ def place_fault(rng, events, eligible, kinds=("kill", "io_error", "torn")):
     if not by_class:
         return None
     cls = rng.choice(sorted(by_class))
-    occ = by_class[cls]
+    want_occ, occ = occ, by_class[cls]
     # bias towards first / last occurrence (first chunk, short last chunk)
     u = rng.random()
-    k = occ[0] if u < 0.2 else occ[-1] if u < 0.4 else rng.choice(occ)
+    occs = occ
+    k = occs[0] if u < 0.2 else occs[-1] if u < 0.4 else rng.choice(occs)
+    if want_occ is not None:          # explicit occurrence (sweeps): "first" / "last" / index
+        k = occs[0] if want_occ == "first" else occs[-1] if want_occ == "last" else occs[max(-len(occs), min(len(occs) - 1, int(want_occ)))]
     lab = events[k]
     op = lab.split(":", 1)[0]
     ks = [x for x in kinds if x not in ("torn", "corrupt", "short") or op in ("write", "tofile") or (x in ("torn", "short") and op == "move" and _cross_dir(lab))
@@ -191,7 +194,9 @@ def place_fault(rng, events, eligible, kinds=("kill", "io_error", "torn")):
     kind = rng.choice(ks) if ks else "kill"      # a write-only kind on a non-write event degrades to a kill there
     f = {"kind": kind, "at": k, "label": lab}
     if kind in ("torn", "corrupt", "short"):
-        f["tear"] = rng.choice([0.01, 0.25, 0.5, 0.75, 0.99, round(rng.random(), 3)])
+        f["tear"] = rng.choice([0.0, 0.01, 0.25, 0.5, 0.75, 0.99, 1.0, round(rng.random(), 3)])      # 0.0 / 1.0: the very first / very last byte of the extent
+    if tear is not None and "tear" in f:
+        f["tear"] = tear
     if kind == "short":
         f["errno"] = 28
     if kind == "io_error":
